@@ -3021,7 +3021,8 @@ class Network(Cached):
         _, evecs = eigsh(self.sp_A.astype(float), k=1, sigma=self.N**2,
                          maxiter=100, tol=1e-8)
         ec = evecs.T[0]
-        ec *= np.sign(ec[0])
+        #  fix the sign by the dominant entry (entry 0 may be numerically zero)
+        ec *= np.sign(ec[np.argmax(np.abs(ec))])
         return ec / ec.max()
 
     @Cached.method(name="n.s.i. eigenvector centrality", attrs=("_mut_nw",))
@@ -3065,7 +3066,8 @@ class Network(Cached):
         _, evecs = eigsh(sp_Astar, k=1, sigma=max(W**2, 2*W),
                          maxiter=100, tol=1e-8)
         ec = evecs.T[0] / np.sqrt(self.node_weights)
-        ec *= np.sign(ec[0])
+        #  fix the sign by the dominant entry (entry 0 may be numerically zero)
+        ec *= np.sign(ec[np.argmax(np.abs(ec))])
         return ec / ec.max()
 
     def pagerank(self, link_attribute=None, use_directed=True):
